@@ -265,6 +265,9 @@ pub fn c11(ctx: &mut Ctx, acc: &mut Acc) -> i32 {
 }
 
 pub fn c15(ctx: &mut Ctx, acc: &mut Acc) -> i32 {
+    if ctx.extra.get("only").is_none() {
+        crate::rt::big_values(ctx, acc, "C15");
+    }
     let n_cat = ctx.n(500, 5000);
     let n_der = ctx.n(100, 600);
     let ids: Vec<String> = ctx.my_subjects(|_| true).iter().map(|s| s.id().to_string()).collect();
